@@ -3,6 +3,7 @@ package main
 import (
 	"context"
 	"fmt"
+	"strings"
 	"sync"
 	"time"
 
@@ -43,6 +44,10 @@ type storeDesc struct {
 	State string `json:"state"`
 	Zone  string `json:"zone,omitempty"`
 	Host  string `json:"host,omitempty"`
+	// Extra are further labels as key,value pairs in order (case variants of zone / noleader, duplicates,
+	// empty values): pd reads label keys case-insensitively in GetLabelValue but compares the
+	// reject-leader property exactly, so such a store is never "plainly able to lead" for the oracle.
+	Extra []string `json:"extra_labels,omitempty"`
 }
 
 type ruleDesc struct {
@@ -78,6 +83,11 @@ func (w *world) clearlyLeaderCapable(id uint64) bool {
 	if s == nil || s.State != stUp {
 		return false
 	}
+	for i := 0; i+1 < len(s.Extra); i += 2 {
+		if strings.EqualFold(s.Extra[i], "noleader") {
+			return false // a spelling pd's two label readers disagree about: not judged
+		}
+	}
 	return w.Rules == "off" || w.Rules == "default"
 }
 
@@ -92,6 +102,9 @@ func storeInfo(s storeDesc) (*core.StoreInfo, error) {
 	}
 	if s.State == stReject {
 		labels = append(labels, &metapb.StoreLabel{Key: "noleader", Value: "true"})
+	}
+	for i := 0; i+1 < len(s.Extra); i += 2 {
+		labels = append(labels, &metapb.StoreLabel{Key: s.Extra[i], Value: s.Extra[i+1]})
 	}
 	const capacity = 100 << 30
 	stats := &pdpb.StoreStats{StoreId: s.ID, Capacity: capacity, Available: capacity, IsBusy: s.State == stBusy}
@@ -163,8 +176,10 @@ func newCluster(w *world) (*cluster, error) {
 		}
 		mc.PutStore(st)
 	}
+	// config.NewTestOptions() comes with enable-placement-rules = true: "off" has to be said explicitly
+	// (the rule manager stays initialised, as in a real server where rules were switched off).
+	mc.SetEnablePlacementRules(w.Rules != "off")
 	if w.Rules != "off" {
-		mc.SetEnablePlacementRules(true)
 		if w.Rules == "custom" {
 			for _, rd := range w.RuleSet {
 				rule := &placement.Rule{GroupID: "pd", ID: rd.ID, Role: placement.PeerRoleType(rd.Role), Count: rd.Count}
